@@ -8,7 +8,7 @@
    the implementation on every run).  All statements are over the reals. *)
 From Coq Require Import Reals ZArith List Bool.
 From Verif Require Import Scalar RInst NdIndex C08Color Quat QuatAlg C08Model
-  C08ColorP C08GeomP C08ProjP C08ShapeP C08WitnessP.
+  C08ColorP C08GeomP C08ProjP C08ShapeP C08WitnessP C08BoundaryP.
 Import ListNotations.
 Local Open Scope R_scope.
 
@@ -124,13 +124,31 @@ Theorem C08_boundary_saturated : forall az,
 Proof. exact color_boundary_saturated. Qed.
 Print Assumptions C08_boundary_saturated.
 
+(* a unit direction on a bounding plane of the sector has polar coordinate 0
+   (exact arithmetic), so EVERY boundary direction -- the corners included --
+   is fully saturated, for every azimuth-correction table *)
+Theorem C08_boundary_polar_zero : forall sec (v n : vec3 (T:=R)),
+  s_center sec <> (0, 0, 0) -> dot v v = 1 -> In n (s_normals sec) ->
+  dot n v = 0 -> 0 < dot n (vunit ROps (s_center sec)) ->
+  polar_of ROps rd_id sec v = 0.
+Proof. exact polar_of_boundary. Qed.
+Print Assumptions C08_boundary_polar_zero.
+
+Theorem C08_boundary_direction_saturated : forall sec tbl (v n : vec3 (T:=R)),
+  s_center sec <> (0, 0, 0) -> dot v v = 1 -> In n (s_normals sec) ->
+  dot n v = 0 -> 0 < dot n (vunit ROps (s_center sec)) ->
+  let '(r, g, b) := color_of_polar ROps (azimuth_of ROps sec tbl v) (polar_of ROps rd_id sec v) in
+  Rmax (Rmax r g) b = 1 /\ Rmin (Rmin r g) b = 0.
+Proof. exact color_on_boundary_saturated. Qed.
+Print Assumptions C08_boundary_direction_saturated.
+
 Theorem C08_corners_ideal_partial :
   color_of_polar ROps 0 0 = (1, 0, 0) /\ color_of_polar ROps (2 * PI / 3) 0 = (0, 1, 0)
   /\ color_of_polar ROps (4 * PI / 3) 0 = (0, 0, 1).
 Proof. exact (conj color_corner_red (conj color_corner_green color_corner_blue)). Qed.
 Print Assumptions C08_corners_ideal_partial.
 (* FULL clause: direction2color [001],[101],[111] = red, green, blue for the m-3m
-   key.  Missing: that a vertex has polar coordinate 0 and that _correct_azimuth
+   key.  Missing: that _correct_azimuth
    maps the vertex azimuths to 0, 2pi/3, 4pi/3 -- the code's 1000-point table
    does so only to 2e-2 per channel (checked by the oracle at the exact corners;
    the table itself is compared with the model's table on every run). *)
